@@ -1,10 +1,4 @@
+from registry import CHECKS
 ALL_IDS = ["C%02d" % i for i in range(1, 21)]
 NOT_APPLICABLE = {}
-META = {
-    "C13": {
-        "text": "Every interleaving (at lock acquisitions, preemption-bounded) of 2-3 registry threads calling the real EndpointIndex on one forced-collision service is checked against the set of sequential orders of the same calls run on the real code; plus exhaustive input product for EDS membership. This is the level at which the property's 'as if in some sequential order' clause can be decided: it quantifies over schedules.",
-        "design_ref": "DESIGN.md section 4 C13",
-        "note": "Trusted: the cooperative scheduler + sync shim (scheduling points = lock acquisitions of endpointshards.go), testing/synctest quiescence, sequential consistency between points; bounds: <=3 threads, <=2 calls per thread, preemption bound 2 (quick) / 3 (thorough).",
-        "technique": "stateless model checking of the implementation: preemption-bounded DFS over thread interleavings under a controlled scheduler, linearizability oracle by brute force over sequential orders",
-    },
-}
+META = {k: v["meta"] for k, v in CHECKS.items()}
